@@ -42,7 +42,7 @@ import (
 	"github.com/cloudflare/pint/internal/promapi"
 	"github.com/cloudflare/pint/internal/reporter"
 	"github.com/cloudflare/pint/verifharness/c05"
-	"github.com/cloudflare/pint/verifharness/lint"
+	_ "github.com/cloudflare/pint/verifharness/lint" // its init silences slog
 	"github.com/cloudflare/pint/verifharness/vstat"
 )
 
@@ -124,13 +124,20 @@ func collectRaw(dir string, in c05.Input, offline bool) (raw []reporter.Report, 
 	if err = c05.Materialize(dir, in, promURI()); err != nil {
 		return nil, nil, fmt.Errorf("%w: %v", errInfra, err)
 	}
-	cfg, cerr := lint.LoadConfig(dir, "", lint.Options{Offline: offline})
+	// like the binary: run from inside the directory, with relative paths (path
+	// matchers of the config see the same strings)
+	restore, cherr := chdir(dir)
+	if cherr != nil {
+		return nil, nil, fmt.Errorf("%w: %v", errInfra, cherr)
+	}
+	defer restore()
+	cfg, cerr := loadConfig(offline)
 	if cerr != nil {
 		return nil, nil, fmt.Errorf("%w: config: %v", errSkip, cerr)
 	}
 	var paths []string
 	for _, n := range in.Names() {
-		paths = append(paths, filepath.Join(dir, n))
+		paths = append(paths, n)
 	}
 	schema := parser.PrometheusSchema
 	if cfg.Parser.Schema == config.SchemaThanos {
@@ -184,6 +191,33 @@ func collectRaw(dir string, in c05.Input, offline bool) (raw []reporter.Report, 
 		}
 	}
 	return raw, job, nil
+}
+
+func chdir(dir string) (func(), error) {
+	old, err := os.Getwd()
+	if err != nil {
+		return nil, err
+	}
+	if err = os.Chdir(dir); err != nil {
+		return nil, err
+	}
+	return func() { _ = os.Chdir(old) }, nil
+}
+
+// loadConfig is actionSetup (cmd/pint/main.go) for `-c .pint.hcl [--offline]`.
+func loadConfig(offline bool) (config.Config, error) {
+	cfg, fromFile, err := config.Load(".pint.hcl", true)
+	if err != nil {
+		return cfg, err
+	}
+	if fromFile {
+		cfg.Parser.Exclude = append(cfg.Parser.Exclude, ".pint.hcl")
+	}
+	cfg.SetDisabledChecks(nil)
+	if offline {
+		cfg.DisableOnlineChecks()
+	}
+	return cfg, nil
 }
 
 // arrivalOrder turns an arbitrary permutation into an order a schedule can
@@ -331,6 +365,11 @@ func checkPerm(c Case) (st permStats, err error) {
 		return st, rerr
 	}
 	st.job = job
+	restore, cherr := chdir(dir)
+	if cherr != nil {
+		return st, fmt.Errorf("%w: %v", errInfra, cherr)
+	}
+	defer restore()
 	st.reports = len(raw)
 	n := len(raw)
 	ident := make([]int, n)
@@ -591,6 +630,11 @@ func mirrorJSON(c Case) (string, error) {
 	if err != nil {
 		return "", err
 	}
+	restore, err := chdir(dir)
+	if err != nil {
+		return "", err
+	}
+	defer restore()
 	ident := make([]int, len(raw))
 	for i := range ident {
 		ident[i] = i
@@ -599,7 +643,7 @@ func mirrorJSON(c Case) (string, error) {
 	if out.Err != "" {
 		return "", errors.New(out.Err)
 	}
-	return strings.ReplaceAll(out.JSON, dir+"/", ""), nil
+	return out.JSON, nil
 }
 
 func tailOf(s string, n int) string {
